@@ -81,6 +81,12 @@ func (f *Fn) canon(e ast.Expr, depth int) string {
 					return fmt.Sprintf("%s#%d", f.canon(def, depth+1), idx)
 				}
 			}
+			if depth < 4 {
+				if x, key := f.rangeValueOf(o); x != nil {
+					// the value variable of `for k, v := range X` names X[k]
+					return f.canon(x, depth+1) + "[local(" + key + ")]"
+				}
+			}
 			return "local(" + o.Name() + ")"
 		case *types.Func:
 			return pkgShort(o.Pkg()) + "." + o.Name()
@@ -151,6 +157,56 @@ func (f *Fn) canon(e ast.Expr, depth int) string {
 	return types.ExprString(e)
 }
 
+// rangeValueOf returns the ranged-over expression and the key name when o is the value
+// variable of exactly one `for k, o := range X` statement over a slice or array and is not
+// assigned anywhere else.
+func (f *Fn) rangeValueOf(o *types.Var) (ast.Expr, string) {
+	var scope ast.Node = f.Body
+	if f.Scope != nil {
+		scope = f.Scope
+	}
+	var x ast.Expr
+	key := "_"
+	n, other := 0, 0
+	ast.Inspect(scope, func(m ast.Node) bool {
+		switch s := m.(type) {
+		case *ast.RangeStmt:
+			if id, ok := s.Value.(*ast.Ident); ok && f.Info.Defs[id] == o {
+				n++
+				x = s.X
+				if k, ok := s.Key.(*ast.Ident); ok {
+					key = k.Name
+				}
+			}
+		case *ast.AssignStmt:
+			for _, l := range s.Lhs {
+				if id, ok := l.(*ast.Ident); ok && (f.Info.Uses[id] == o || f.Info.Defs[id] == o) {
+					other++
+				}
+			}
+		case *ast.UnaryExpr:
+			if s.Op == token.AND {
+				if id, ok := s.X.(*ast.Ident); ok && f.Info.Uses[id] == o {
+					other++
+				}
+			}
+		}
+		return true
+	})
+	if n != 1 || other != 0 || x == nil {
+		return nil, ""
+	}
+	if t := f.Info.TypeOf(x); t != nil {
+		switch t.Underlying().(type) {
+		case *types.Slice, *types.Array:
+			return x, key
+		case *types.Pointer:
+			return x, key
+		}
+	}
+	return nil, ""
+}
+
 // singleDef returns the defining expression of a local variable that is
 // assigned exactly once in the function (via := or var x = e with one value).
 func (f *Fn) singleDef(o *types.Var) ast.Expr {
@@ -189,7 +245,8 @@ func (f *Fn) singleDefIdx(o *types.Var) (ast.Expr, int) {
 				}
 				if f.Info.Defs[id] == o || f.Info.Uses[id] == o {
 					count++
-					if len(x.Lhs) == len(x.Rhs) && x.Tok == token.DEFINE {
+					if len(x.Lhs) == len(x.Rhs) && (x.Tok == token.DEFINE || x.Tok == token.ASSIGN) {
+						// `var x T` (zero value, not counted below) followed by exactly one `x = e` is a single definition too
 						def = x.Rhs[i]
 					} else if len(x.Rhs) == 1 && len(x.Lhs) > 1 && x.Tok == token.DEFINE {
 						def = x.Rhs[0]
@@ -206,6 +263,8 @@ func (f *Fn) singleDefIdx(o *types.Var) (ast.Expr, int) {
 					count++
 					if len(x.Values) == len(x.Names) {
 						def = x.Values[i]
+					} else if len(x.Values) == 0 {
+						count-- // zero-value declaration: the single later assignment defines the variable
 					} else {
 						count++
 					}
@@ -231,6 +290,19 @@ func (f *Fn) singleDefIdx(o *types.Var) (ast.Expr, int) {
 		return true
 	})
 	// the walk must cover the outermost declared function so captured variables see all their assignments
+	if count == 1 && def != nil {
+		// a definition that mentions the variable itself is a recurrence (loop accumulator), not a name for a value
+		selfRef := false
+		ast.Inspect(def, func(n ast.Node) bool {
+			if id, ok := n.(*ast.Ident); ok && f.Info.Uses[id] == o {
+				selfRef = true
+			}
+			return !selfRef
+		})
+		if selfRef {
+			count = 2
+		}
+	}
 	if count == 1 {
 		f.defCache[o] = defInfo{def, defIdx}
 		return def, defIdx
@@ -480,7 +552,9 @@ func (f *Fn) Sufficient(e ast.Expr, val bool) []Atom {
 }
 
 // Formula is a boolean formula over atom keys used to compare predicate shapes.
-type Formula interface{ eval(env map[string]bool) bool }
+type Formula interface {
+	eval(env map[string]bool) bool
+}
 
 type fAtom string
 type fNot struct{ x Formula }
